@@ -152,7 +152,7 @@ def main(c):
                 else:
                     c.report("minsize:%s" % desc, what, rep, True)
             elif size != mr[0]:
-                c.notes.append("%s: minimal size %d is larger than needed (%d)" % (desc, size, mr[0]))
+                c.notes.append("%s: declared minimal size %d, exact minimal size %d (over-estimate, harmless)" % (desc, size, mr[0]))
         elif t[0] == "CART":
             n1, n, m, s, size = (int(x) for x in t[1:6])
             idx = [int(x) for x in t[6:]]
